@@ -29,21 +29,21 @@ type scenario struct {
 	StepEvery  bool      // advance empty slots one by one (compare after every slot)
 	PBlock     float64
 	// per-epoch participation pattern (cycled)
-	Participation []float64
-	SyncPart      float64
-	WrongHead     float64
-	WrongTarget   float64
-	AttBack       uint64
-	POps          float64 // probability per block of carrying slashings/exits/bls changes
-	PDeposits     float64
-	Blobs         int
-	Eth1Creds     float64
-	ExtraBalance  bool
-	LeakEpochs    [2]int // participation forced to 0.3 inside [from, to)
+	Participation         []float64
+	SyncPart              float64
+	WrongHead             float64
+	WrongTarget           float64
+	AttBack               uint64
+	POps                  float64 // probability per block of carrying slashings/exits/bls changes
+	PDeposits             float64
+	Blobs                 int
+	Eth1Creds             float64
+	ExtraBalance          bool
+	LeakEpochs            [2]int // participation forced to 0.3 inside [from, to)
 	CustomSlashingsVector bool
 	DepositsFromEpoch     int
 	ForcedSlashings       bool
-	EjectionHigh          bool // EJECTION_BALANCE just below the maximum: ejections (batched exit queue) become reachable
+	EjectionHigh          bool   // EJECTION_BALANCE just below the maximum: ejections (batched exit queue) become reachable
 	LatePattern           []bool // per epoch (cycled): attestations of that epoch are only included during the next epoch
 	MergeDelay            uint64 // the first MergeDelay slots of bellatrix carry no execution payload (merge transition block later)
 }
